@@ -42,22 +42,28 @@ type World struct {
 	Funcs map[string]*Func
 	byObj map[*types.Func]*Func
 
-	prog  *ssa.Program
-	ssaOK bool
-	cg    *callgraph.Graph
-	cgVTA *callgraph.Graph
-	astCG *CG
+	prog    *ssa.Program
+	ssaOK   bool
+	cg      *callgraph.Graph
+	cgVTA   *callgraph.Graph
+	astCG   *CG
 	pkgList []*packages.Package
-	memo  map[string]any
+	memo    map[string]any
 
 	Config string // description of the build configuration
+
+	Renamed     []string
+	aliased     map[*Func]bool
+	Inlined     []string // helper functions substituted at their call sites before analysis
+	InlineNotes []string
 }
 
 type LoadOpts struct {
-	Dir     string
-	Overlay map[string][]byte
-	Env     []string // extra env, e.g. GOARCH=386
-	Tags    string
+	Dir      string
+	Overlay  map[string][]byte
+	Env      []string // extra env, e.g. GOARCH=386
+	Tags     string
+	NoInline bool
 }
 
 func pkgKey(path string) string {
@@ -76,7 +82,72 @@ func pkgKey(path string) string {
 	return ""
 }
 
+// Load loads the tree and then makes unpinned helper functions transparent (inline.go).
 func Load(o LoadOpts) (*World, error) {
+	w, err := loadOnce(o)
+	if err != nil || o.NoInline || len(pinnedFuncs) == 0 {
+		return w, err
+	}
+	w.aliasRenamed()
+	for round := 0; round < 12; round++ {
+		ov, names, notes := w.inlineRound(o.Overlay)
+		if len(names) == 0 {
+			// no helper left: forward-substitute new locals
+			var subs []string
+			ov, subs = w.normalizeLocals(o.Overlay)
+			kind := "new local "
+			if len(subs) == 0 {
+				ov, subs = w.unrollLiteralRanges(o.Overlay)
+				kind = "range over a literal unrolled in "
+			}
+			if len(subs) > 0 {
+				names = nil
+				o2 := o
+				o2.Overlay = ov
+				w2, err2 := loadOnce(o2)
+				if err2 != nil {
+					w.InlineNotes = append(w.InlineNotes, fmt.Sprintf("local substitution abandoned for %v: %v", subs, err2))
+					break
+				}
+				w2.aliasRenamed()
+				w2.Inlined = w.Inlined
+				w2.InlineNotes = append(w.InlineNotes, notes...)
+				for _, s := range subs {
+					if kind == "new local " {
+						w2.InlineNotes = append(w2.InlineNotes, "new local "+s+" substituted into its uses before analysis")
+					} else {
+						w2.InlineNotes = append(w2.InlineNotes, kind+s+" before analysis")
+					}
+				}
+				w, o = w2, o2
+				continue
+			}
+		}
+		w.InlineNotes = append(w.InlineNotes, notes...)
+		if len(names) == 0 {
+			break
+		}
+		o2 := o
+		o2.Overlay = ov
+		if d := os.Getenv("MKDBCHECK_DEBUG_INLINE"); d != "" {
+			for name, b := range ov {
+				os.WriteFile(d+"/"+strings.ReplaceAll(strings.TrimPrefix(name, o.Dir), "/", "_"), b, 0644)
+			}
+		}
+		w2, err2 := loadOnce(o2)
+		if err2 != nil {
+			w.InlineNotes = append(w.InlineNotes, fmt.Sprintf("helper transparency abandoned for %v: the substituted program does not type-check (%v)", names, err2))
+			break
+		}
+		w2.aliasRenamed()
+		w2.Inlined = append(append([]string{}, w.Inlined...), names...)
+		w2.InlineNotes = w.InlineNotes
+		w, o = w2, o2
+	}
+	return w, nil
+}
+
+func loadOnce(o LoadOpts) (*World, error) {
 	env := append(os.Environ(), "GOFLAGS=-mod=mod", "GOPROXY=off", "GOSUMDB=off", "GOWORK=off", "GOTOOLCHAIN=local")
 	env = append(env, o.Env...)
 	conf := &packages.Config{
@@ -261,11 +332,11 @@ func calleeKey(fn *types.Func) string {
 					pkg = k
 				}
 			}
-			return pkg + "." + n.Obj().Name() + "." + fn.Name()
+			return pkg + "." + n.Obj().Name() + "." + fnName(fn)
 		}
-		return pkg + ".?." + fn.Name()
+		return pkg + ".?." + fnName(fn)
 	}
-	return pkg + "." + fn.Name()
+	return pkg + "." + fnName(fn)
 }
 
 // CallIs reports whether call resolves to a function whose key is one of keys.
@@ -360,3 +431,10 @@ func (f *Func) mayReturn(call *ast.CallExpr) bool {
 }
 
 var _ = cfg.New
+
+func fnName(fn *types.Func) string {
+	if a, ok := funcAlias[fn]; ok {
+		return a
+	}
+	return fn.Name()
+}
